@@ -165,7 +165,93 @@ def check_wire(plan) -> Result:
     return r
 
 
+USE_HELPERS = ["can_rewrite_custom_eui64", "can_burn_userdata_custom_eui64", "reset_custom_eui64", "get_board_info",
+               "initialize_network", "read_counters", "get_free_buffers"]
+
+
+def check_after_use(plan) -> Result:
+    """The conversion is used all over the library.  After any of the library's own helpers has run (whatever the NCP
+    answered) the conversion of EVERY status must be what it is in a fresh process: nothing the library does may edit the
+    table for the rest of the process.  plan = ["after-use", version, helper, reply status code]"""
+    import asyncio
+
+    import bellows.ezsp as e
+    import bellows.types as t
+    from vlib import refezsp, vloop
+
+    _, v, helper, code = plan
+    r = Result(nontrivial=True, classes=["after-library-use", "used:" + helper], key=plan)
+
+    def zeros(rx):
+        out = b""
+        if isinstance(rx, dict):
+            fields = list(rx.items())
+        else:
+            try:
+                fields = [(f.name, f.type) for f in rx.fields]
+            except Exception:
+                fields = []
+        for name, T in fields:
+            if name == "status" and not out:
+                out += bytes([code & 0xFF]) if v < 14 or not issubclass(T, t.sl_Status) else int(code).to_bytes(4, "little")
+                continue
+            try:
+                _, rest = T.deserialize(b"\x00" * 80)
+                out += b"\x00" * (80 - len(rest))
+            except Exception:
+                out += b"\x00"
+        return out
+
+    async def body(loop):
+        cls = e.EZSP._BY_VERSION[v]
+        ezsp = e.EZSP({"path": "/dev/null"})
+        by_id = {cid: (n, rx) for n, (cid, tx, rx) in cls.COMMANDS.items()}
+
+        class Gw:
+            async def send_data(self_, data):
+                p = refezsp.parse(v, bytes(data))
+                seq, fid = p[0], p[2]
+                loop.call_soon(ezsp.frame_received, refezsp.header(v, seq, fid, refezsp.RESPONSE) + zeros(by_id[fid][1]))
+
+        ezsp._gw = Gw()
+        ezsp._protocol, ezsp._ezsp_version = cls(ezsp.handle_callback, ezsp._gw), v
+        ezsp.start_ezsp()
+        fn = getattr(ezsp, helper, None)
+        if fn is None:
+            return "absent"
+        try:
+            await asyncio.wait_for(fn(), 60)
+            return "returned"
+        except asyncio.CancelledError:
+            raise
+        except BaseException as ex:
+            return type(ex).__name__
+
+    try:
+        how = vloop.run_case(body, horizon=1e6)
+    except Exception as ex:
+        how = "harness:" + type(ex).__name__
+    r.cls("helper-" + str(how).split(":")[0])
+    for family in ("ember", "ezsp"):
+        for x in range(256):
+            sub = check([family, x, "ctor"])
+            for sig, d in sub.violations:
+                r.bad(sig + ":after-library-use", f"after {helper} on v{v} (reply status 0x{code:X}): {d}")
+            try:
+                out = int(t.sl_Status.from_ember_status(_build(family, x, "ctor")))
+            except Exception:
+                continue
+            first = _FIRST.setdefault((family, x), out)
+            if first != out:
+                r.bad(f"C18:answer-depends-on-history:{family}:0x{x:02X}", f"after {helper} on v{v}: now 0x{out:X}, earlier 0x{first:X}")
+        if r.violations:
+            break
+    return r
+
+
 def replay(plan) -> Result:
+    if plan and plan[0] == "after-use":
+        return check_after_use(plan)
     if plan and plan[0] == "wire":
         return check_wire(plan)
     if plan and plan[0] == "history":
@@ -227,6 +313,12 @@ def run(ctx):
                 plan = ["wire", v, op, code]
                 ctx.check(plan, check_wire(plan), sample=(v == 4 and op == "init" and code == 0x93))
     ctx.exhaustive["steering codes x {network init, unicast, multicast, broadcast} x every version, off the wire"] = True
+    for v in sorted(e_.EZSP._BY_VERSION):
+        for helper in USE_HELPERS:
+            for code in (0x00, 0x93, 0x70):
+                plan = ["after-use", v, helper, code]
+                ctx.check(plan, check_after_use(plan), sample=(v == 13 and helper == USE_HELPERS[0] and code == 0x93))
+    ctx.exhaustive["whole conversion table re-checked after each library helper x reply status x version"] = True
     for tname in FOREIGN:
         for v in range(256):
             plan = ["foreign", tname, v]
